@@ -1923,7 +1923,10 @@ class GroupBy:
         if global_mask is not None:
             self._preprocess_arguments(values, global_mask)
         kwargs = dict(agg_func=agg_func, margins=margins, values=values)
-        return self.agg(**kwargs, mask=subset_mask & global_mask) / self.agg(
+        numerator_mask = (
+            subset_mask if global_mask is None else subset_mask & global_mask
+        )
+        return self.agg(**kwargs, mask=numerator_mask) / self.agg(
             **kwargs, mask=global_mask
         )
 
